@@ -353,6 +353,7 @@ pub(crate) struct ClusterStorage {
     db: ServerDb,
     cluster_log: ClusterLog,
     db_pool: DbPool,
+    last_execution: Option<tokio::task::JoinHandle<()>>,
 }
 
 impl ClusterStorage {
@@ -369,6 +370,7 @@ impl ClusterStorage {
             db,
             cluster_log,
             db_pool,
+            last_execution: None,
         };
 
         for log in logs {
@@ -385,10 +387,18 @@ impl ClusterStorage {
         let cluster_log = self.cluster_log.clone();
         let notifier = self.notifier.clone();
         let result_notifier = self.result_notifiers.remove(&log_id);
+        let previous_execution = self.last_execution.take();
 
-        tokio::spawn(async move {
+        self.last_execution = Some(tokio::spawn(async move {
             #[cfg(agdb_verif)]
             crate::verif::task_gate(log.index).await;
+
+            // Committed logs must be applied one at a time in log order
+            // regardless of how the runtime schedules the spawned tasks.
+            if let Some(previous_execution) = previous_execution {
+                let _ = previous_execution.await;
+            }
+
             let result = log.data.exec(db.clone(), db_pool).await;
             let _ = notifier.send(log.index);
             let _ = cluster_log.log_executed(log_id).await;
@@ -396,7 +406,7 @@ impl ClusterStorage {
             if let Some(rs) = result_notifier {
                 let _ = rs.send(result.map(|r| (log.index, r)));
             }
-        });
+        }));
 
         Ok(())
     }
